@@ -87,7 +87,7 @@ CHECKS = {
               "ledger rules R0-R6 evaluated on every update result, every event object on the wire and every event_cleared callback; "
               "hook H6 audits the live buffer under the database's own mutex at every transaction, selection, response build and confirmation: list links both ways, free-slot accounting, total and written counters recomputed from the records, capacity, id order, overflow flag (rules L1-L4, A1-A6); distinct = (profile, solicited/unsolicited, fragment number, follow-up action) tuples"),
         runs=[dict(check="c03", scale=10, timeout_s=900)],
-        required=["points_removed_while_holding_events", "events_created", "overflows", "event_objects_attributed", "R1_release_justified", "R3_conservation_ok", "R4_order_ok", "R5_selection_prefix_ok", "R5_unsol_selection_ok",
+        required=["fragments_with_more_than_255_events_attributed", "points_removed_while_holding_events", "events_created", "overflows", "event_objects_attributed", "R1_release_justified", "R3_conservation_ok", "R4_order_ok", "R5_selection_prefix_ok", "R5_unsol_selection_ok",
                   "confirms_with_expected_release", "sol_timeouts", "late_confirms", "aborts", "reconnect_close", "reconnect_preempt", "disable_during_unsol_wait", "reads_deferred", "unsol_retries",
                   "event_buffer_audits", "event_buffer_audits_at_clear_written", "event_buffer_audits_at_events_info", "event_buffer_audits_at_write_unsolicited", "reconnect_by_disable"],
         thorough_scale=30.0,
@@ -155,7 +155,7 @@ CHECKS = {
               "{wrong sequence, wrong source (other association / unknown), solicited with UNS, illegal FIR/FIN/CON for the position, IIN2 rejection, unsolicited (null/data), duplicate unsolicited, truncated objects, unknown object} optionally followed by the faithful answer; "
               "distinct = (task kind, fragment class, fragment position, CON) tuples in which the acceptance/confirm/delivery rules were evaluated"),
         runs=[dict(check="c15", scale=10, timeout_s=900)],
-        required=["custom_handler_deliveries_ok", "misflagged_unsolicited_sent", "accepted_confirmed_ok", "rejected_not_confirmed_ok", "completed_with_answer_ok", "not_completed_without_answer_ok", "deliveries_match_ok", "unsolicited_confirmed_ok", "unsolicited_delivery_ok", "unsolicited_duplicates_sent", "startup_unsol_retry_delivered_ok", "startup_unsol_duplicate_null_ok", "long_series_ok"],
+        required=["mixed_source_responses_sent", "custom_handler_deliveries_ok", "misflagged_unsolicited_sent", "accepted_confirmed_ok", "rejected_not_confirmed_ok", "completed_with_answer_ok", "not_completed_without_answer_ok", "deliveries_match_ok", "unsolicited_confirmed_ok", "unsolicited_delivery_ok", "unsolicited_duplicates_sent", "startup_unsol_retry_delivered_ok", "startup_unsol_duplicate_null_ok", "long_series_ok"],
         thorough_scale=25.0,
         abnormal_exit_is_violation=True,
         assumptions=HARNESS_TRUST,
@@ -166,7 +166,7 @@ CHECKS = {
               "part B: every request kind (read, direct operate, select+operate, 3 time-sync procedures, cold/warm restart, dead-band write, link status, empty-response, file read through a recording FileReader [open, two blocks, close], the same after authentication [5 steps], directory read [listing cut inside a descriptor], file info, file authenticate / open / write block / write last block / close) x every protocol step x {no failure, reply lost, reply lost with channel chatter, link error, channel disabled, association removed, association removed and the reply then arrives, master task cancelled (runtime shutdown); for file operations also 8 replies that do not grant the step: failure status or zero key, other variation, truncated, IIN2 rejection, empty, two headers, wrong handle, wrong block}; part Q: queue full and no connection. "
               "distinct = (part, mode, mutation class, step) and (request kind, step, failure) tuples"),
         runs=[dict(check="c16", scale=6, timeout_s=900)],
-        required=["faithful_echo_ok", "mutated_echo_rejected", "operate_withheld_ok", "operate_matches_select_ok", "catalogue_runs", "faithful_exchange_ok", "failure_reported_in_time", "failure_points_enumerated", "queue_full_rejected_ok", "no_connection_rejected_ok", "file_close_failure_after_completion_ok",
+        required=["queued_resolved_after_disable_ok", "faithful_echo_ok", "mutated_echo_rejected", "operate_withheld_ok", "operate_matches_select_ok", "catalogue_runs", "faithful_exchange_ok", "failure_reported_in_time", "failure_points_enumerated", "queue_full_rejected_ok", "no_connection_rejected_ok", "file_close_failure_after_completion_ok",
                   "faithful_ok_read_directory", "faithful_ok_read_file_auth", "faithful_ok_file_auth", "faithful_ok_file_open", "faithful_ok_file_write_last_block", "faithful_ok_file_close",
                   "file_reply_spoiled_status", "file_reply_spoiled_wrong_handle", "file_reply_spoiled_wrong_block", "file_reply_spoiled_two_headers"],
         thorough_scale=12.0,
